@@ -34,6 +34,8 @@ def workdir(tag):
 
 
 def cleanup(d):
+    if os.environ.get("VERIF_DEV_KEEP_WORK"):   # development only: look at the work directory afterwards
+        return
     shutil.rmtree(d, ignore_errors=True)
 
 
